@@ -234,7 +234,7 @@ def annotate_args(case):
         args += ["--skip-unrecognised"]
     if case.get("tmpl", "default") != "default":
         args += ["--template", TEMPLATES[case["tmpl"]][0].split(".")[0]]
-    for flag, opt in (("no_replace", "--no-replace"), ("merge", "--merge-copyrights"), ("skip_existing", "--skip-existing")):
+    for flag, opt in (("no_replace", "--no-replace"), ("merge", "--merge-copyrights"), ("skip_existing", "--skip-existing"), ("recursive", "--recursive")):
         if case.get(flag):
             args.append(opt)
     return args
@@ -295,6 +295,19 @@ def lint_reading(root, names):
                     rec["lic"] = sorted({str(x) for i in infos for x in i.spdx_expressions})
             except Exception as ex:  # noqa
                 rec["readerr"] = type(ex).__name__
+        if not rec["cpr"] and not rec["lic"] and not rec["con"]:
+            # The linter reports contributors only for files that also declare copyright or licensing.  What a file that
+            # holds nothing but contributors declares is read from the place the linter would consult (FILE.license if
+            # there is one, else FILE), with the same extraction on the same window.
+            tgt = n + ".license" if os.path.isfile(os.path.join(root, n + ".license")) else n
+            try:
+                with open(os.path.join(root, tgt), "rb") as fp:
+                    raw = lint_read_bytes(fp.read())
+            except OSError:
+                raw = None
+            if raw is not None and not raw[0] and not raw[1] and raw[2]:
+                rec["con"] = sorted(raw[2])
+                rec["con_only"] = True
         out[n] = rec
     if exc is not None:
         out["__lint_exc__"] = repr(exc)[:200]
@@ -314,7 +327,7 @@ def run_in(root, case):
     before = lint_reading(root, names)
     from binaryornot.check import is_binary
     binary = {n: bool(is_binary(os.path.join(root, n))) for n in names}
-    rc, out, exc = cli.run_cli(annotate_args(case) + names, root)
+    rc, out, exc = cli.run_cli(annotate_args(case) + list(case.get("paths") or names), root)
     after_snap = snapshot_str(root)
     after = lint_reading(root, names)
     return {"rc": rc, "exc": None if exc is None else "%s: %s" % (type(exc).__name__, str(exc)[:160]),
@@ -360,9 +373,8 @@ def _covers(got_years, want_years):
 
 
 def missing(want, got, merged):
-    """What of `want` = (cpr, lic, con) is not in the reading `got` = (cpr, lic, con).  Contributors are read by
-    the linter only for files that declare copyright or licensing (reuse_info_of_file), so they are only
-    demanded then."""
+    """What of `want` = (cpr, lic, con) is not in the reading `got` = (cpr, lic, con).  (The linter reads contributors
+    only for files that declare copyright or licensing; lint_reading supplies those of a contributor-only file.)"""
     w_cpr, w_lic, w_con = want
     g_cpr, g_lic, g_con = got
     out = {}
@@ -375,7 +387,7 @@ def missing(want, got, merged):
         out["copyright"] = m
     if not w_lic <= g_lic:
         out["licence"] = sorted(w_lic - g_lic)
-    if (g_cpr or g_lic) and not w_con <= g_con:
+    if not w_con <= g_con:
         out["contributor"] = sorted(w_con - g_con)
     return out
 
